@@ -371,7 +371,76 @@ func checkFileFaults(c *mon.Case, f *fileFixture) {
 			}
 		}
 	}
+	// (5) a reader that is already streaming is moved forward across block boundaries while the next
+	// load fails once: what it then returns is the content at the new position or the load error,
+	// and after the outage the same reader serves the right bytes
+	if int64(len(f.Content)) >= 3 {
+		for t := 0; t < 10; t++ {
+			st.ClearFaults()
+			st.ResetLog()
+			rs := open()
+			if rs == nil {
+				return
+			}
+			l := int64(len(f.Content))
+			first := 1 + rr.Int63n(min64(l-1, 3))
+			buf := make([]byte, first)
+			if _, err := io.ReadFull(rs, buf); err != nil || !bytes.Equal(buf, f.Content[:first]) {
+				c.Violation("C12|file|spurious-error", "reading the first %d bytes of %s without faults: %v", first, f.Name, err)
+				break
+			}
+			target := first + rr.Int63n(l-first)
+			st.ResetLog()
+			st.FailReadAt = 1 + rr.Intn(2)
+			st.FailErr = store.ErrInjected
+			var got []byte
+			var rerr error
+			if !c.Guard("forward Seek on a streaming reader + ReadAll with the next load failing once", func() {
+				if _, rerr = rs.Seek(target, io.SeekStart); rerr == nil {
+					got, rerr = io.ReadAll(rs)
+				}
+			}) {
+				continue
+			}
+			hit := st.InjectedHits > 0
+			c.Count("reads_checked", 1)
+			c.Count("forward_seeks_on_streaming_readers", 1)
+			rest := f.Content[target:]
+			if len(got) > len(rest) || !bytes.Equal(got, rest[:len(got)]) {
+				c.Violation("C12|file|wrong-bytes", "%s: after reading %d bytes, Seek(%d) and reading on with one load failing once returned %d bytes that are not the content at %d (first difference at %d)", f.Name, first, target, len(got), target, firstDiff(got, rest))
+				break
+			}
+			if hit && rerr == nil && len(got) != len(rest) {
+				c.Violation("C12|file|no-error", "%s: a load failed while moving a streaming reader to %d, yet the read ended after %d of %d bytes without an error", f.Name, target, len(got), len(rest))
+				break
+			}
+			if rerr != nil && !isInjected(rerr, 1) {
+				c.Violation("C12|file|other-error", "%s: error %T %v is not the injected load error", f.Name, rerr, rerr)
+				break
+			}
+			// the outage is over
+			st.ClearFaults()
+			var again []byte
+			var aerr error
+			c.Guard("the same reader after the outage", func() {
+				if _, aerr = rs.Seek(target, io.SeekStart); aerr == nil {
+					again, aerr = io.ReadAll(rs)
+				}
+			})
+			if aerr != nil || !bytes.Equal(again, rest) {
+				c.Violation("C12|file|stale-after-transient-fault", "%s: after the outage, Seek(%d)+ReadAll on the same reader returned %d of %d bytes, err %v", f.Name, target, len(again), len(rest), aerr)
+				break
+			}
+		}
+	}
 	st.ClearFaults()
+}
+
+func min64(a, b int64) int64 {
+	if a < b {
+		return a
+	}
+	return b
 }
 
 func checkDirFaults(c *mon.Case, d dirCase) {
